@@ -404,6 +404,39 @@ impl Loader for WorldLoader {
     }
     .boxed_local()
   }
+
+  fn ensure_cached(
+    &self,
+    specifier: &ModuleSpecifier,
+    options: LoadOptions,
+  ) -> deno_graph::source::EnsureCachedFuture {
+    self.ensure_cached_impl(specifier, options)
+  }
+}
+
+impl WorldLoader {
+  /// `Loader::ensure_cached` as a loader with a cache would implement it: the
+  /// same lookup (and checksum verification), without returning the bytes.
+  fn ensure_cached_impl(
+    &self,
+    specifier: &ModuleSpecifier,
+    options: LoadOptions,
+  ) -> deno_graph::source::EnsureCachedFuture {
+    use deno_graph::source::CacheResponse;
+    self.record(specifier, &options, true);
+    let resp = self.respond(specifier, &options).map(|r| {
+      r.map(|r| match r {
+        LoadResponse::Redirect { specifier } => CacheResponse::Redirect { specifier },
+        LoadResponse::External { .. } | LoadResponse::Module { .. } => CacheResponse::Cached,
+      })
+    });
+    let gate = self.sched.gate();
+    async move {
+      gate.await;
+      resp
+    }
+    .boxed_local()
+  }
 }
 
 // ---------------------------------------------------------------------------
